@@ -1,12 +1,24 @@
 #!/bin/bash
-# usage: seed_run.sh <dir with patch.diff> <ID> [tier] : apply to /repo, run the check, restore
+# usage: seed_run.sh <dir with patch.diff> <ID> [tier]
+# Runs check <ID> against a scratch worktree of /repo carrying the seeded
+# change (VERIF_REPO), with evidence/replays diverted to a scratch dir, so it
+# can run in parallel with other work.  (Equivalent to: git -C /repo apply;
+# ./check; git -C /repo checkout -- .  -- use SEED_INPLACE=1 for exactly that.)
 d=$(readlink -f "$1"); id=$2; tier=${3:-quick}
-[ -n "$(git -C /repo status --porcelain)" ] && { echo "/repo dirty"; exit 2; }
-git -C /repo apply $d/patch.diff || exit 2
+out=/tmp/seedout-$$; mkdir -p $out
+if [ -n "$SEED_INPLACE" ]; then
+  [ -n "$(git -C /repo status --porcelain)" ] && { echo "/repo dirty"; exit 2; }
+  git -C /repo apply $d/patch.diff || exit 2
+  wt=/repo
+else
+  wt=/tmp/swt-$$
+  git -C /repo worktree add --detach -q $wt HEAD || exit 2
+  git -C $wt apply $d/patch.diff || { git -C /repo worktree remove --force $wt; exit 2; }
+fi
 cd /verif
-VERIF_NO_SHRINK=${VERIF_NO_SHRINK-1} ./check $id $tier > /tmp/seedrun.$$ 2>&1; rc=$?
-git -C /repo checkout -- .
-echo "rc=$rc $(grep -c '^VIOLATION' /tmp/seedrun.$$) violation lines"
-grep -E "^  signature:" /tmp/seedrun.$$ | sort | uniq -c | sort -rn | head -${SHOW:-6}
-tail -1 /tmp/seedrun.$$
-rm -f /tmp/seedrun.$$
+VERIF_REPO=$wt VERIF_OUT=$out VERIF_NO_SHRINK=${VERIF_NO_SHRINK-1} ./check $id $tier > $out/log 2>&1; rc=$?
+if [ -n "$SEED_INPLACE" ]; then git -C /repo checkout -- .; else git -C /repo worktree remove --force $wt; fi
+echo "rc=$rc violations=$(grep -c '^VIOLATION' $out/log)"
+grep -E "^  signature:" $out/log | sort | uniq -c | sort -rn | head -${SHOW:-5}
+tail -1 $out/log
+rm -rf $out
